@@ -28,7 +28,7 @@ from symx import core
 from symx.core import Ctx, Stats, explore, Inconclusive, Unsupported, PathLimit, SymBool, SymReal
 from . import lib, runner, callsym, c09
 
-DOMAIN_TEXT = G.domain_text([("act", [], ["and"], ["and"])], const=True)
+DOMAIN_TEXT = c09.DOMAIN_TEXT
 ATOM_POOL = c09.ATOM_POOL
 FLUENT_POOL = c09.FLUENT_POOL
 GOALS = c09.GOALS
@@ -40,10 +40,16 @@ LAYOUTS = [
     ("typed as object", "o1 o2 - t1 o3 - t3 u1 - t2 x1 x2 - object", {"o1": "t1", "o2": "t1", "o3": "t3", "u1": "t2", "x1": "object", "x2": "object"}),
     ("trailing untyped names", "o1 o2 - t1 o3 - t3 u1 - t2 x1 x2", {"o1": "t1", "o2": "t1", "o3": "t3", "u1": "t2", "x1": "object", "x2": "object"}),
     ("upper case", "O1 O2 - T1 o3 - t3 U1 - t2", {"o1": "t1", "o2": "t1", "o3": "t3", "u1": "t2"}),
+    ("root type first", "x1 - object o1 o2 - t1 o3 - t3 u1 - t2", {"x1": "object", "o1": "t1", "o2": "t1", "o3": "t3", "u1": "t2"}),
 ]
 NUMERALS = ["5", "0", "-3", "2.50", "0.125", "-0.5", "1e2", "1.5e-1", "-2E3", "007", "+4"]
 _N = [0]
 
+
+
+AWKWARD = (0.123456789, 1234.56789012, -0.000123456789)  # added to a counterexample's values when it does not reproduce as is:
+# a disagreement that needs many significant digits (number printing) is real all the same, and is reported with the
+# values that reproduce it
 
 def _scratch():
     _N[0] += 1
@@ -161,6 +167,13 @@ def _cex(ctx, res, task, va, xf, problems, neg):
     atoms = {a: bool(z3.is_true(model.eval(v, model_completion=True))) for a, v in va.items()}
     fls = {f: lib.to_float(core.zval(model, v)) for f, v in xf.items()}
     rp = concrete_faithful(task, atoms, fls)
+    if not rp.get("disagree"):
+        for delta in AWKWARD:
+            shifted = {k_: v_ + delta for k_, v_ in fls.items()}
+            rp2 = concrete_faithful(task, atoms, shifted)
+            if rp2.get("disagree"):
+                rp, fls = rp2, shifted
+                break
     if rp.get("disagree"):
         res["outcome"] = "violation"
         res["cex"] = {"what": "; ".join(problems[:3]), "atoms": atoms, "fluents": fls, "replay": callsym._jsonable(rp),
@@ -209,6 +222,10 @@ CORRUPTIONS = [
     ("init fact whose object has a supertype of the required type", {"init": "(s x1)", "objects": "o1 o2 - t1 o3 - t3 u1 - t2 x1 - object"}),
     ("init fluent whose object has a non-conforming type", {"init": "(= (f u1) 1)"}),
     ("second argument of a non-conforming type", {"init": "(q o1 u1)"}),
+    ("first argument of a supertype of the required type", {"init": "(m o1 o3)"}),
+    ("repeated object that fits the last position only", {"init": "(m o1 o1)"}),
+    ("repeated object that fits the first position only", {"init": "(m2 o1 o1)", "note": "m2 is not declared: also undeclared"}),
+    ("goal literal with a repeated object that fits the last position only", {"goal": "(m o2 o2)"}),
     ("goal literal over an undeclared predicate", {"goal": "(zz o1)"}),
     ("goal literal with wrong arity", {"goal": "(q o1)"}),
     ("goal literal over an undeclared object", {"goal": "(p o9)"}),
